@@ -19,6 +19,12 @@ void harness(void)
 	int ok;
 	unsigned i, hl, level, minlen, plen, sum = 0;
 	ASSUME(slen <= S_MAX);
+#ifdef SYM_BYTES
+	/* long-header variant: only the first SYM_BYTES bytes are arbitrary, the filler behind them is zero; the length
+	 * byte is large (HL_MIN..255) and the name short - what is exercised is the arithmetic on the length fields */
+	for (i = SYM_BYTES; i < S_MAX; ++i) data[i] = 0;
+	ASSUME(data[0] >= HL_MIN && data[21] <= PLEN_MAX);
+#endif
 	for (i = 0; i < S_MAX; ++i) st_data[i] = data[i];
 	st_len = slen;
 	mk_result = mkres;
@@ -93,8 +99,13 @@ void harness(void)
 				CHECK(h->os_type == LHA_OS_TYPE_UNKNOWN && h->extra_flags == 0, "C05: unrecognised level-0 extended area is ignored");
 			}
 		}
+#ifndef SYM_BYTES
 		if (level == 1 && plen == 3 && hl == 28) WITNESS("level 1, 3-byte name");
 		if (level == 0 && plen == 0 && hl == 34) WITNESS("level 0 with Unix area");
+#else
+		if (hl == 255) WITNESS("length byte 255 accepted");
+		if (hl == 254 && level == 1) WITNESS("length byte 254, level 1");
+#endif
 	} else {
 		/* completeness direction for well-formed input: a header that satisfies all rules is accepted */
 		unsigned good = hl >= minlen && hl + 2 <= slen && minlen + plen <= hl;
